@@ -258,7 +258,10 @@ def spec_pool(tier, primary="C08"):
     grid = [{"subs": "1", "workers": w, "stop": st} for w in ("1", "2") for st in ("stop", "soft", "hard")]
     grid += [{"subs": "11", "workers": "1", "stop": st} for st in ("stop", "soft", "hard")]
     grid += [{"subs": "2", "workers": "2", "stop": "soft"}, {"subs": "11", "workers": "2", "stop": "hard"}]
+    # follow-up jobs under "SoftStop and nothing else" (monitors only)
+    grid += [{"subs": sb, "workers": w, "stop": "softonly", "chain": "1"} for sb, w in (("2", "1"), ("2", "2"), ("21", "1"), ("3", "1"))]
     rand = [{"subs": "22", "workers": "2", "stop": st} for st in ("stop", "soft", "hard")] + [{"subs": "21", "workers": "1", "stop": "soft"}]
+    rand += [{"subs": "22", "workers": "2", "stop": "softonly", "chain": "1"}]
     return ConcSpec(
         name="ThreadPool", scenario="tp", grid=grid,
         inv_props=dict(OWN_INVS, **dict(RACE_INVS, DropOnlyWhenStopped="C05")), primary=primary,
